@@ -37,6 +37,12 @@ fn strip(path: &str) -> String {
   if let Some(rest) = path.strip_prefix("/repo/") {
     return rest.to_string();
   }
+  // a scratch worktree of the repository (mutant runs): same key as for /repo itself
+  if !path.contains("/registry/src/") {
+    if let Some(i) = path.find("/identity_") {
+      return path[i + 1..].to_string();
+    }
+  }
   if let Some(i) = path.find("/registry/src/") {
     let rest = &path[i + "/registry/src/".len()..];
     if let Some(j) = rest.find('/') {
